@@ -51,3 +51,17 @@ Theorem C03_stable_pinned_before_first_pods : forall t u w br cur n g o,
   co_br o <> br -> n_stable_sel (apply_writes n (co_writes o)) = Some (su_stable u).
 Proof. exact canary_step_first_pinned. Qed.
 Print Assumptions C03_stable_pinned_before_first_pods.
+
+(* step jumps: a jump lands in the traffic-routing state only between steps that call for the same replicas AND from a step
+   that is past its own upgrade (its pods -- the same number -- were reported ready, C02); otherwise it restarts at StepInit, so
+   that the target step's pods are upgraded and ready before its route is written.  The second condition is the repair of F14. *)
+Theorem C03_jump_reaches_traffic_routing_only_between_equal_replicas : forall sp u u' cur nx,
+  RolloutSM.do_jump sp u = Some (Some u') ->
+  RolloutSM.get_step sp (RolloutSM.su_idx u) = Some cur -> RolloutSM.get_step sp (RolloutSM.su_next u) = Some nx ->
+  RolloutSM.su_idx u' = RolloutSM.su_next u /\
+  (RolloutSM.su_state u' = RolloutSM.StTraffic ->
+     ios_eqb (RolloutSM.sp_replicas nx) (RolloutSM.sp_replicas cur) = true /\
+     RolloutSM.su_state u <> RolloutSM.StInit /\ RolloutSM.su_state u <> RolloutSM.StUpgrade) /\
+  (RolloutSM.su_state u' = RolloutSM.StTraffic \/ RolloutSM.su_state u' = RolloutSM.StInit).
+Proof. exact Proofs.RolloutTR.jump_routes_only_between_equal_replicas. Qed.
+Print Assumptions C03_jump_reaches_traffic_routing_only_between_equal_replicas.
